@@ -45,3 +45,24 @@ def conclude(rep, ok, info, bad, fmt=None, limit=5):
             {"broken": info},
             found_input=False,
         )
+
+
+def split_known(rep, prop, bad, calls_of):
+    """separates counterexamples inside a listed known-finding class; prints KNOWN-FINDING lines"""
+    known = [e for e in core.load_known().get("open", []) if e["property"] == prop]
+    rest, hit = [], {}
+    for b in bad:
+        k = None
+        for e in known:
+            cls = e.get("class", {})
+            names = set(cls.get("history_calls_any", []))
+            if names and any(c.split(" ")[0] in names for c in calls_of(b)):
+                k = e
+                break
+        if k is None:
+            rest.append(b)
+        else:
+            hit.setdefault(k["id"], (k, b))
+    for fid, (e, b) in hit.items():
+        rep.known("%s %s" % (fid, e["what"][:160]))
+    return rest
